@@ -265,8 +265,145 @@ def midifile_containment_cases(ctx):
                           "written file: healthy tracks' messages differ from the run without the failing track at %s vs %s" % (a[k:k + 2], b[k:k + 2]), rp)
 
 
+def same_exception_cases(ctx):
+    """'the same exception propagates to the caller of tick() or run()' — the very exception object, also when the device stays
+    dead afterwards (its note_off raises too while run() cleans up) — and 'an exception raised while a track computes an event
+    removes that track' also when the failing pattern sits inside library patterns (scalers, operators, sequences, references):
+    whatever the class of the exception (TypeError, StopIteration excepted), no wrapper may swallow it and let the track play on."""
+    from .. import common
+    common.ensure_repo_on_path()
+    import isobar as iso
+    from isobar.io.output import OutputDevice
+    r = ctx.rng
+    BADNOTE = 99
+
+    class Dev(OutputDevice):
+        def __init__(self, x, stays_dead):
+            super().__init__()
+            self.x, self.stays_dead, self.dead, self.now, self.calls = x, stays_dead, False, 0, []
+
+        def note_on(self, note=60, velocity=64, channel=0):
+            if int(note) == BADNOTE:
+                self.dead = self.stays_dead
+                raise self.x
+            self.calls.append((self.now, "on", int(note), channel))
+
+        def note_off(self, note=60, channel=0):
+            if self.dead:
+                raise OSError("the device is gone")
+            self.calls.append((self.now, "off", int(note), channel))
+
+    class Faulty(iso.Pattern):
+        """notes 40, 41, …; the read number `at` raises `x` (once); a pattern that is read again afterwards plays on"""
+        def __init__(self, at, x):
+            self.at, self.x, self.pos = at, x, 0
+
+        def reset(self):
+            self.pos = 0
+
+        def __next__(self):
+            self.pos += 1
+            if self.pos - 1 == self.at:
+                raise self.x
+            return 40 + (self.pos % 20)
+
+    wrappers = {
+        "plain": lambda p: p,
+        "PScaleLinLin": lambda p: iso.PScaleLinLin(p, 0, 127, 0, 127),
+        "PScaleLinExp": lambda p: iso.PScaleLinExp(p, 1, 127, 1, 127),
+        "PAdd": lambda p: p + 0,
+        "PMul-reflected": lambda p: 1 * p,
+        "PStutter": lambda p: iso.PStutter(p, 1),
+        "PSequence-item": lambda p: iso.PSequence([p]),
+        "PRef": lambda p: iso.PRef(p),
+        "PAbs": lambda p: iso.PAbs(p),
+        "PInt": lambda p: iso.PInt(p),
+        "PRound": lambda p: iso.PRound(p, 0),
+        "PSubsequence": lambda p: iso.PSubsequence(p, 0, 10000),
+        "nested": lambda p: iso.PInt(iso.PScaleLinLin(p + 0, 0, 127, 0, 127)),
+    }
+    classes = [TypeError, ValueError, KeyError, RuntimeError, AttributeError, ZeroDivisionError, IndexError, OSError, ArithmeticError]
+    for i in range(ctx.scale(150, 5000)):
+        tpb = r.choice([2, 4, 8])
+        site = r.choice(["pattern", "pattern", "device"])
+        wname = r.choice(sorted(wrappers)) if site == "pattern" else "plain"
+        tolerant = r.random() < 0.5
+        via_run = r.random() < 0.5
+        stays_dead = site == "device" and not tolerant and r.random() < 0.6     # (a dead device fails every track alike)
+        at = r.randint(0, 4)
+        x = r.choice(classes)("failure number %d" % i)
+        nticks = (at + 4) * tpb
+
+        def play(with_failing):
+            dev = Dev(x, stays_dead)
+            tl = iso.Timeline(tempo=120, output_device=dev, clock_source=iso.DummyClock(ticks_per_beat=tpb))
+            tl.ignore_exceptions = tolerant
+            tl.schedule({"note": iso.PSequence([70, 72, 74]), "duration": 1, "gate": 0.5, "channel": 1})
+            if with_failing:
+                if site == "pattern":
+                    tl.schedule({"note": wrappers[wname](Faulty(at, x)), "duration": 1, "gate": 0.5, "channel": 9})
+                else:
+                    tl.schedule({"note": iso.PSequence([50 + j for j in range(at)] + [BADNOTE] + [51] * 50, 1), "duration": 1, "gate": 0.5, "channel": 9})
+            tl.schedule({"note": iso.PSequence([30, 31]), "duration": 1, "gate": 0.5, "channel": 2})
+            count = [0]
+            orig = tl.tick
+
+            def tick():
+                if count[0] >= nticks:
+                    raise StopIteration
+                dev.now = count[0]
+                count[0] += 1
+                orig()
+            escaped = None
+            try:
+                with sched_impl.quiet():
+                    if via_run:
+                        tl.tick = tick
+                        tl.run()
+                    else:
+                        for _ in range(nticks):
+                            tick()
+            except StopIteration:
+                pass
+            except BaseException as ex:       # noqa: BLE001
+                escaped = ex
+            return dev.calls, escaped, count[0]
+        try:
+            full, escaped, ticks_done = play(True)
+            ref, _e, _t = play(False)
+        except Exception as ex:
+            ctx.note("same-exception case failed to run: %r" % (ex,))
+            continue
+        fail_tick = at * tpb
+        case = {"tpb": tpb, "site": site, "wrapper": wname, "tolerant": tolerant, "via": "run()" if via_run else "tick()", "exception": type(x).__name__,
+                "device_stays_dead": stays_dead, "failing_event_index": at, "failing_tick": fail_tick}
+        ctx.case(("same-exception", repr(case)), nontrivial=True, validated=False, sample=case if i < 3 else None)
+        ctx.count("same-exception:%s:%s" % (site, "tolerant" if tolerant else "intolerant"), "same-exception:wrapper:" + wname)
+        bad = None
+        late = [c for c in full if c[3] == 9 and c[1] == "on" and c[0] >= fail_tick]
+        if tolerant:
+            healthy = lambda cs: [c for c in cs if c[3] in (1, 2)]
+            if escaped is not None:
+                bad = ("C17:exception-escaped-tolerant", "%s escaped %s in tolerant mode" % (type(escaped).__name__, case["via"]))
+            elif late:
+                bad = ("C17:failing-track-not-removed", "the failing track still played %s at or after its failing tick %d" % (late[:3], fail_tick))
+            elif healthy(full) != healthy(ref):
+                bad = ("C17:healthy-track-disturbed", "healthy tracks' output differs from the run without the failing track")
+        else:
+            if escaped is None:
+                bad = ("C17:exception-lost", "no exception reached the caller of %s although tolerance is off (the track played on: %s)" % (case["via"], late[:3]))
+            elif escaped is not x:
+                bad = ("C17:another-exception-propagated", "the caller of %s got %r, the exception raised in the track was %r" % (case["via"], escaped, x))
+            elif ticks_done != fail_tick + 1:
+                bad = ("C17:exception-on-wrong-tick", "the exception reached the caller on tick %d, it was raised on tick %d" % (ticks_done - 1, fail_tick))
+        if bad:
+            ctx.violation(bad[0] + (":" + wname if site == "pattern" and wname != "plain" else ""), "%s (%s)" % (bad[1], case),
+                          {"suite": "c17-same-exception", "case": case, "first_failing_clause": "the same exception propagates / removes that track only"})
+
+
 def run(ctx):
     run_mode_cases(ctx)
+    same_exception_cases(ctx)
     midifile_containment_cases(ctx)
     sched_suite.run_suite(ctx, PROF, ctx.scale(2000, 120000), "c17", [time_oracle], nontrivial, signature_of)
     for i in range(ctx.scale(300, 12000)):
